@@ -121,6 +121,152 @@ def _single_conj(conds):
     return set(next(iter(conds)))
 
 
+def _accumulators(fa):
+    """Locals that are filled element by element: `c = []` followed by one loop whose whole body is
+    `[if <cond>:] c.append(<elt>)`.  Returned as {name: equivalent list comprehension (AST)}, so that a test on such a
+    list can be read like a test on the comprehension it spells out."""
+    out = {}
+    for s in fa.stmts(ast.Assign):
+        if not (len(s.targets) == 1 and isinstance(s.targets[0], ast.Name)):
+            continue
+        v = s.value
+        if not ((isinstance(v, ast.List) and not v.elts) or (isinstance(v, ast.Call) and A.norm(v) == "list()")):
+            continue
+        name = s.targets[0].id
+        if sum(1 for s2 in fa.stmts() for t in (s2.targets if isinstance(s2, ast.Assign) else [getattr(s2, "target", None)])
+               if isinstance(t, ast.Name) and t.id == name) != 1:
+            continue
+        apps = [c for c in fa.calls("append") if isinstance(A.call_recv(c), ast.Name) and A.call_recv(c).id == name and len(c.args) == 1]
+        if len(apps) != 1:
+            continue
+        st = fa.stmt_of(apps[0])
+        conds = []
+        cur, par = st, fa.pm.get(st)
+        okp = isinstance(st, ast.Expr)
+        while okp and isinstance(par, ast.If):
+            if len(A.sig_stmts(par.body)) + len(A.sig_stmts(par.orelse)) != 1:
+                okp = False
+                break
+            conds.insert(0, par.test if cur in par.body else ast.UnaryOp(op=ast.Not(), operand=par.test))
+            cur, par = par, fa.pm.get(par)
+        if not okp or not isinstance(par, ast.For) or par.orelse or A.sig_stmts(par.body) != [cur] or not isinstance(par.target, ast.Name):
+            continue
+        comp = ast.ListComp(elt=apps[0].args[0], generators=[ast.comprehension(target=par.target, iter=par.iter, ifs=conds, is_async=0)])
+        comp._loop_tests = [c.operand if isinstance(c, ast.UnaryOp) and isinstance(c.op, ast.Not) and c not in ast.walk(par) else c for c in conds]
+        out[name] = ast.fix_missing_locations(comp)
+    return out
+
+
+def _exit_paths(fa, cap=20000):
+    """The acyclic paths from the entry to the NORMAL exit (a loop body is entered at most once; exception edges are
+    not followed), each as (list of CFG node ids, {literal text: polarity}).  Literals are FA's canonical ones
+    (locals expanded, negations normalised), read PATH-SENSITIVELY: a test on a boolean local is replaced by the
+    condition that local was last assigned on this very path (a constant decides the branch; an expression contributes
+    its own literals, provided nothing with an effect was executed in between), and a list filled by an append loop
+    reads as the comprehension it spells out.  None when there are too many paths."""
+    import copy
+    cfg = fa.cfg
+    acc = _accumulators(fa)
+    summarised = {id(t) for c in acc.values() for t in c._loop_tests}  # the filter tests of such loops say nothing about the path
+    out = []
+    count = [0]
+
+    class Sub(ast.NodeTransformer):
+        def visit_Name(self, n):
+            if isinstance(n.ctx, ast.Load) and n.id in acc:
+                return copy.deepcopy(acc[n.id])
+            return n
+
+    def effectful(nd):
+        a = nd.ast
+        if a is None or nd.kind not in ("stmt", "with", "for"):
+            return False
+        if isinstance(a, (ast.Assign, ast.AugAssign, ast.AnnAssign)):
+            tg = a.targets if isinstance(a, ast.Assign) else [a.target]
+            if any(not isinstance(t, ast.Name) for t in tg):
+                return True
+        return any(isinstance(x, ast.Call) and not (A.dotted(x.func) or "").startswith("log.") for x in A.walk_local(a))
+
+    def atoms(t, node_id, positive, env, path):
+        """literals of test `t` taken with the given polarity; None = this branch is infeasible."""
+        if isinstance(t, ast.UnaryOp) and isinstance(t.op, ast.Not):
+            return atoms(t.operand, node_id, not positive, env, path)
+        if isinstance(t, ast.BoolOp) and ((isinstance(t.op, ast.And) and positive) or (isinstance(t.op, ast.Or) and not positive)):
+            res = []
+            for v in t.values:
+                r = atoms(v, node_id, positive, env, path)
+                if r is None:
+                    return None
+                res += r
+            return res
+        if isinstance(t, ast.Constant):
+            return [] if bool(t.value) == positive else None
+        if isinstance(t, ast.Name) and t.id in env:
+            val, dnode, didx = env[t.id]
+            if isinstance(val, ast.Constant):
+                return [] if bool(val.value) == positive else None
+            if isinstance(val, (ast.Compare, ast.BoolOp, ast.UnaryOp, ast.Name, ast.Attribute)) and not any(isinstance(x, ast.Call) for x in ast.walk(val)) \
+                    and not any(effectful(cfg.node(i)) for i in path[didx + 1:]):
+                return atoms(val, dnode, positive, {k: v for k, v in env.items() if v[2] < didx}, path[:didx])
+        t2 = Sub().visit(copy.deepcopy(t)) if acc else t
+        return [fa._literal(t2, node_id, positive)]
+
+    def dfs(n, path, lits, env, twice):
+        if count[0] > cap:
+            return
+        if n == cfg.exit:
+            count[0] += 1
+            out.append((list(path), dict(lits)))
+            return
+        nd = cfg.node(n)
+        if nd.kind == "stmt" and isinstance(nd.ast, (ast.Assign, ast.AnnAssign, ast.AugAssign)):
+            tg = nd.ast.targets if isinstance(nd.ast, ast.Assign) else [nd.ast.target]
+            names = {x.id for t in tg for x in ast.walk(t) if isinstance(x, ast.Name) and isinstance(x.ctx, ast.Store)}
+            if names:
+                env = {k: v for k, v in env.items() if k not in names}
+                if isinstance(nd.ast, ast.Assign) and len(tg) == 1 and isinstance(tg[0], ast.Name):
+                    env[tg[0].id] = (nd.ast.value, n, len(path) - 1)
+        elif nd.kind in ("for", "with"):
+            tg = [nd.ast.target] if nd.kind == "for" else [i.optional_vars for i in nd.ast.items if i.optional_vars is not None]
+            names = {x.id for t in tg for x in ast.walk(t) if isinstance(x, ast.Name)}
+            env = {k: v for k, v in env.items() if k not in names}
+        is_loop_head = nd.kind == "for" or (nd.kind == "test" and isinstance(fa.pm.get(nd.ast), ast.While) and fa.pm.get(nd.ast).test is nd.ast)
+        for (d, l) in cfg.succ[n]:
+            if l == "exc":
+                continue
+            if n in twice and l != "F":
+                continue  # second arrival at a loop head: the loop can only be left
+            revisit = d in path
+            if revisit:
+                dn = cfg.node(d)
+                d_head = dn.kind == "for" or (dn.kind == "test" and isinstance(fa.pm.get(dn.ast), ast.While) and fa.pm.get(dn.ast).test is dn.ast)
+                if not d_head or d in twice:
+                    continue
+            add = []
+            if nd.kind == "test" and l in ("T", "F") and not (is_loop_head and nd.kind == "test") and id(nd.ast) not in summarised:
+                add = atoms(nd.ast, n, l == "T", env, path)
+                if add is None:
+                    continue
+            if any(lits.get(a[0], a[1]) != a[1] for a in add):
+                continue
+            new = dict(lits)
+            for a in add:
+                new[a[0]] = a[1]
+            path.append(d)
+            dfs(d, path, new, env, twice | {d} if revisit else twice)
+            path.pop()
+
+    dfs(cfg.entry, [cfg.entry], {}, {}, frozenset())
+    return None if count[0] > cap else out
+
+
+def _parse_lit(text):
+    try:
+        return ast.parse(text, mode="eval").body
+    except SyntaxError:
+        return None
+
+
 def _reads_attr(fa, expr, attr, at=None):
     """Does the value of `expr` derive from `<something>.attr` / getattr(<something>, 'attr'[, default])?"""
     for n in _flow(fa, expr, at).values():
@@ -989,74 +1135,171 @@ def check_update_protocol(ck, R):
     cfg = fa.cfg
     rec = fa.nodes_all(fa.calls("_recompute_version"))
     ck.need(rec, "_update_dependencies: _recompute_version call not found")
-    # tests are recognised on their expansion (locals replaced by what they were assigned)
-    xt = {n.id: fa.xnorm(n.ast, n.id) for n in cfg.nodes if n.kind == "test"}
-    gen_tests = [i for i, t in xt.items() if "as_of_generation" in t and "_global_fn_generation" in t]
-    chg_tests = [i for i, t in xt.items() if "did_change()" in t]
-    exp_tests = [i for i, t in xt.items() if t == "self.explicit_version is not None"]
-    lock_tests = [i for i, t in xt.items() if ".locked" in t and "get_cluster(" in t]
-    ok_shape = len(gen_tests) == 1 and len(chg_tests) == 1 and len(exp_tests) == 1 and len(lock_tests) == 1
+    # The protocol is decided on the PATH CLASSES of the function (_exit_paths): every acyclic path to the normal
+    # exit with the branch literals taken on it (locals expanded, negations / nesting / guard clauses / boolean
+    # flags normalised away), and the protocol events (recompute, bump, store) it passes, in order.
+    GEN = "MementoFunction._global_fn_generation"
+    CACHE = "MementoFunction._global_fn_version_cache"
+    paths = _exit_paths(fa)
+    ck.need(paths is not None, "_update_dependencies: too many paths")
+
+    def changed_coll(e):
+        """'exact' for `[r for r in self._hash_rules if r.did_change()]` (any comprehension kind / variable name),
+        'partial' for another expression that asks did_change()."""
+        if isinstance(e, (ast.ListComp, ast.GeneratorExp, ast.SetComp)) and len(e.generators) == 1:
+            g_ = e.generators[0]
+            if isinstance(g_.target, ast.Name) and A.norm(g_.iter) == "self._hash_rules" and A.norm(e.elt) == g_.target.id \
+                    and [A.norm(c) for c in g_.ifs] == [g_.target.id + ".did_change()"]:
+                return "exact"
+        return "partial" if "did_change()" in A.norm(e) else None
+
+    def classify(text):
+        """(role, detail) of one literal."""
+        if text == "self.explicit_version is None":
+            return ("explicit", None)
+        if text == "self._calculated_version is None":
+            return ("has-version", None)
+        e = _parse_lit(text)
+        if e is None:
+            return (None, None)
+        if isinstance(e, ast.Attribute) and e.attr == "locked" and "get_cluster(" in text:
+            return ("locked", None)
+        if isinstance(e, ast.Compare) and len(e.ops) == 1:
+            l_, r_ = A.norm(e.left), A.norm(e.comparators[0])
+            for (a_, b_, flip) in ((l_, r_, False), (r_, l_, True)):
+                if a_ == GEN and CACHE in b_ and isinstance((e.comparators[0] if not flip else e.left), ast.Attribute):
+                    return ("generation", (type(e.ops[0]).__name__, (e.comparators[0] if not flip else e.left).attr))
+            if isinstance(e.ops[0], ast.Eq) and {l_, r_} == {"self._calculated_version", "self._recompute_version()"}:
+                return ("same-version", None)
+            # emptiness of the changed-rule collection: len(C) > 0 / != 0 / >= 1 / == 0 / < 1, either operand order
+            for (x_, y_, flip) in ((e.left, e.comparators[0], False), (e.comparators[0], e.left, True)):
+                if isinstance(x_, ast.Call) and A.norm(x_.func) == "len" and len(x_.args) == 1 and changed_coll(x_.args[0]):
+                    op = type(e.ops[0]).__name__
+                    if flip:
+                        op = {"Gt": "Lt", "Lt": "Gt", "GtE": "LtE", "LtE": "GtE"}.get(op, op)
+                    k_ = A.norm(y_)
+                    nonempty = {("Gt", "0"): True, ("GtE", "1"): True, ("Eq", "0"): False, ("Lt", "1"): False, ("LtE", "0"): False}.get((op, k_))
+                    return ("changed", (changed_coll(x_.args[0]), nonempty))
+        if changed_coll(e) is not None:
+            return ("changed", (changed_coll(e), True))
+        if "did_change()" in text:
+            return ("changed", ("partial", None))
+        return (None, None)
+
+    roles = {}
+    for (_p, lits) in paths:
+        for t in lits:
+            if t not in roles:
+                roles[t] = classify(t)
+    by_role = {}
+    for t, (ro, det) in roles.items():
+        if ro is not None:
+            by_role.setdefault(ro, []).append(t)
+    ok_shape = all(len(by_role.get(ro, [])) == 1 for ro in ("explicit", "locked", "generation", "changed"))
     ck.ob(R, fa.key(None, "shape"), ok_shape, "explicit-version, locked-cluster, generation and changed-rule tests present" if ok_shape else
-          "_update_dependencies no longer has exactly one explicit-version / locked / generation / changed-rules test", fa.where())
+          "_update_dependencies no longer has exactly one explicit-version / locked / generation / changed-rules test (found %s)"
+          % {ro: len(by_role.get(ro, [])) for ro in ("explicit", "locked", "generation", "changed")}, fa.where())
     if not ok_shape:
         return
-    gt = cfg.node(gen_tests[0]).ast
-    okeq = isinstance(gt, ast.Compare) and len(gt.ops) == 1 and isinstance(gt.ops[0], ast.Eq)
+    T_EXP, T_LOCK, T_GEN, T_CHG = (by_role[ro][0] for ro in ("explicit", "locked", "generation", "changed"))
+
+    def test_node(text):
+        """the branch test that contributes the literal (for the obligation's location)."""
+        for n_ in cfg.nodes:
+            if n_.kind == "test" and n_.id in cfg.reachable_nodes():
+                for (txt, _pol) in fa._atoms(n_.ast, n_.id, True) + fa._atoms(n_.ast, n_.id, False):
+                    if txt == text:
+                        return n_.ast
+        return None
+
+    gt = test_node(T_GEN)
+    gen_op, gen_field = roles[T_GEN][1]
+    okeq = gen_op == "Eq"
     ck.ob(R, fa.key(gt, "generation-equal"), okeq, "the cache entry must be of exactly the current generation" if okeq else
           "the generation test is not an equality: an entry computed before newer definitions is trusted", fa.where(gt))
-    ct = cfg.node(chg_tests[0]).ast
-    okct = isinstance(ct, ast.Name) or (
-        isinstance(ct, ast.Compare) and len(ct.ops) == 1 and isinstance(ct.ops[0], (ast.Gt, ast.NotEq)) and A.norm(ct.comparators[0]) == "0"
-        and isinstance(ct.left, ast.Call) and A.norm(ct.left.func) == "len" and len(ct.left.args) == 1 and isinstance(ct.left.args[0], ast.Name))
+    ct = test_node(T_CHG)
+    if ct is None:
+        # the literal comes from a list filled by a loop / a flag: locate the test that reads that local
+        acc_ = _accumulators(fa)
+        for n_ in cfg.nodes:
+            if ct is None and n_.kind == "test" and any(isinstance(x, ast.Name) and x.id in acc_ for x in ast.walk(n_.ast)):
+                ct = n_.ast
+    chg_kind, chg_nonempty = roles[T_CHG][1]
+    okct = chg_nonempty is not None
     ck.ob(R, fa.key(ct, "changed-test"), okct, "any changed rule counts" if okct else "the changed-rules test is not 'non-empty'", fa.where(ct))
-    # (a) normal exits that keep the cached version: paths to exit avoiding recompute and the explicit/locked exits
-    def edge_ok(s, d, l):
-        if s in exp_tests and l == "T":
-            return False
-        if s in lock_tests and l == "T":
-            return False
-        if s in gen_tests and l == "T":
-            # allowed continuation only via 'no rule changed' (F edge of the changed test)
-            return True
-        return True
-    live = cfg.reach([cfg.entry], removed=rec, edge_ok=edge_ok)
-    # among those, reaching exit must have passed gen_test(T) and chg_test(F)
-    live2 = cfg.reach([cfg.entry], removed=rec, edge_ok=lambda s, d, l: edge_ok(s, d, l) and not (s in chg_tests and l == "F"))
-    ok_a = cfg.exit in live and cfg.exit not in live2
-    live3 = cfg.reach([cfg.entry], removed=rec, edge_ok=lambda s, d, l: edge_ok(s, d, l) and not (s in gen_tests and l == "T"))
-    ok_a = ok_a and cfg.exit not in live3
+
+    def changed(lits):
+        """True / False / None: on this path some rule changed / no rule changed / not asked."""
+        if T_CHG not in lits or chg_nonempty is None:
+            return None
+        return lits[T_CHG] == chg_nonempty
+
+    def first(path, nodes, after=-1):
+        for i_, x in enumerate(path):
+            if i_ > after and x in nodes:
+                return i_
+        return None
+
+    recs = set(rec)
+    # (a) normal exits that keep the cached version: explicit version, locked cluster, or (current generation AND no rule changed)
+    bad_a = None
+    for (pth, lits) in paths:
+        if first(pth, recs) is not None:
+            continue
+        if lits.get(T_EXP) is False or lits.get(T_LOCK) is True:
+            continue
+        if okeq and lits.get(T_GEN) is True and changed(lits) is False:
+            continue
+        bad_a = bad_a or (pth, lits)
+    ok_a = bad_a is None and any(first(pth, recs) is None and lits.get(T_GEN) is True for (pth, lits) in paths)
     ck.ob(R, fa.key(None, "keep-cached-only-if-current"), ok_a,
           "the cached version is kept only for a current-generation entry with no changed rule" if ok_a else
-          "the cached version can be kept without (entry of the current generation AND no rule changed)", fa.where())
+          "the cached version can be kept without (entry of the current generation AND no rule changed)%s"
+          % ((": path %s" % cfg.describe_path(bad_a[0])) if bad_a else ""), fa.where())
     # changed rules are computed from did_change over the current hash rules
-    cr = [s for s in fa.stmts(ast.Assign) if any(A.call_attr(c) == "did_change" for c in A.calls_in(s.value))]
-    okcr = len(cr) == 1 and isinstance(cr[0].value, ast.ListComp) and len(cr[0].value.generators) == 1 \
-        and A.norm(cr[0].value.generators[0].iter) == "self._hash_rules" and isinstance(cr[0].value.generators[0].target, ast.Name) \
-        and [A.norm(c) for c in cr[0].value.generators[0].ifs] == [cr[0].value.generators[0].target.id + ".did_change()"] \
-        and A.norm(cr[0].value.elt) == cr[0].value.generators[0].target.id
-    ck.ob(R, fa.key(cr[0] if cr else None, "all-rules-asked"), okcr, "every current hash rule is asked did_change()" if okcr else
+    okcr = chg_kind == "exact"
+    ck.ob(R, fa.key(ct, "all-rules-asked"), okcr, "every current hash rule is asked did_change()" if okcr else
           "changed_rules is not [rule for rule in self._hash_rules if rule.did_change()]", fa.where())
     # (b) changed => bump and recompute
-    incs = fa.nodes_all(fa.calls("increment_global_fn_generation"))
-    starts = [d for (d, l) in cfg.succ[chg_tests[0]] if l == "T"]
-    liveT = cfg.reach(starts, removed=incs)
-    ok_b = bool(incs) and cfg.exit not in liveT and not (set(rec) & liveT)
-    liveT2 = cfg.reach(starts, removed=rec)
-    ok_b = ok_b and cfg.exit not in liveT2
+    incs = set(fa.nodes_all(fa.calls("increment_global_fn_generation")))
+    ok_b = bool(incs) and any(changed(lits) is True for (_p, lits) in paths)
+    for (pth, lits) in paths:
+        if changed(lits) is True:
+            i_inc = first(pth, incs)
+            i_rec = first(pth, recs)
+            if i_inc is None or i_rec is None or i_rec < i_inc:
+                ok_b = False
     ck.ob(R, fa.key(ct, "changed-bumps-and-recomputes"), ok_b, "a changed rule bumps the generation and leads to recomputation" if ok_b else
           "after a changed rule the updater can return without bumping the generation and recomputing", fa.where(ct))
     # (c) every path through recompute stores a current-generation cache entry
-    stores = [s for s in fa.stmts(ast.Assign) if any(isinstance(t, ast.Subscript) and "_global_fn_version_cache" in A.norm(t.value) for t in s.targets)]
-    ok_c = len(stores) == 1
-    if ok_c:
-        sn = fa.nodes(stores[0])
-        for r in rec:
-            if cfg.exit in cfg.reach([r], removed=sn, include_start=False):
-                ok_c = False
-        v = stores[0].value
-        ok_c = ok_c and isinstance(v, ast.Call) and A.norm(A.kwarg(v, "as_of_generation")) == "MementoFunction._global_fn_generation" \
-            and A.kwarg(v, "version") is not None and fa.xnorm(A.kwarg(v, "version"), fa.nodes(stores[0])[0]) == "self._recompute_version()" \
-            and A.norm(stores[0].targets[0].slice) == "self.qualified_name_without_version"
+    def nt_fields(ctor):
+        m_ = ck.repo.module("memento")
+        v_ = m_.assigns.get(A.call_attr(ctor) or "")
+        if isinstance(v_, ast.Call) and A.call_attr(v_) == "namedtuple" and len(v_.args) == 2 and isinstance(v_.args[1], (ast.List, ast.Tuple)):
+            return [A.const_str(e) for e in v_.args[1].elts]
+        if isinstance(v_, ast.Call) and A.call_attr(v_) == "namedtuple" and len(v_.args) == 2 and A.const_str(v_.args[1]):
+            return A.const_str(v_.args[1]).replace(",", " ").split()
+        return None
+
+    stores = [s_ for s_ in fa.stmts(ast.Assign) if fa.nodes(s_) and any(isinstance(t, ast.Subscript) and fa.xnorm(t.value, fa.nodes(s_)[0]) == CACHE for t in s_.targets)]
+    ok_c = bool(stores)
+    for s_ in stores:
+        at_ = fa.nodes(s_)[0]
+        v = fa.expand(s_.value, at_)
+        flds = nt_fields(v) if isinstance(v, ast.Call) else None
+        okv = flds is not None and len(s_.targets) == 1
+        if okv:
+            bound = dict(zip(flds, v.args))
+            bound.update({k.arg: k.value for k in v.keywords})
+            okv = gen_field in bound and A.norm(bound[gen_field]) == GEN \
+                and any(f_ != gen_field and fa.xnorm(e_, at_) == "self._recompute_version()" for f_, e_ in bound.items()) \
+                and fa.xnorm(s_.targets[0].slice, at_) == "self.qualified_name_without_version"
+        ok_c = ok_c and okv
+    sn = set(fa.nodes_all(stores))
+    for (pth, lits) in paths:
+        i_rec = first(pth, recs)
+        if i_rec is not None and first(pth, sn, i_rec) is None:
+            ok_c = False
     ck.ob(R, fa.key(stores[0] if stores else None, "cache-store"), ok_c, "each recomputation stores (current generation, version) under the function's name" if ok_c else
           "a recomputation can finish without storing a cache entry stamped with the current generation and the new version", fa.where())
     vdef = [s for s in fa.stmts(ast.Assign) if A.norm(s.value) == "self._recompute_version()"]
@@ -1081,20 +1324,20 @@ def check_update_protocol(ck, R):
         ck.ob(R, fa.key(s_, "version-from-own-evaluation"), own, "the calculated version comes from this instance's own recomputation" if own else
               "`%s` adopts a version from the shared cache without evaluating any rule: an unregistered wrapper (empty rule list) keeps that "
               "version for ever, also after a tracked variable changed" % A.short(s_, 60), fa.where(s_))
-    neq = [i for i, t in xt.items() if t == "self._calculated_version != self._recompute_version()"]
-    ck.ob(R, fa.key(None, "adopts-new-version"), len(neq) == 1, "a differing recomputed version is adopted" if len(neq) == 1 else
+    # a recomputed version that differs from the calculated one is adopted: every path through the recomputation
+    # either found them equal or assigns the calculated version (from the recomputation) afterwards
+    asn = set(fa.nodes_all([s_ for s_ in asg if "call:_recompute_version" in fa.deps(s_.value)]))
+    ok_n = len(by_role.get("same-version", [])) == 1 and bool(asn)
+    for (pth, lits) in paths:
+        i_rec = first(pth, recs)
+        if i_rec is not None and ok_n and lits.get(by_role["same-version"][0]) is not True and first(pth, asn, i_rec) is None:
+            ok_n = False
+    ck.ob(R, fa.key(None, "adopts-new-version"), ok_n, "a differing recomputed version is adopted" if ok_n else
           "the updater does not compare the calculated version with the recomputed one", fa.where())
     # (e) locked-cluster early exit guarded by 'already has a calculated version'
-    lt = cfg.node(lock_tests[0]).ast
-    g = fa.enclosing(fa.pm.get(lt) if not isinstance(fa.pm.get(lt), ast.If) else lt, ast.If)
-    outer_if = None
-    n = fa.pm.get(lt)
-    while n is not None:
-        if isinstance(n, ast.If) and A.norm(n.test) == "self._calculated_version is not None":
-            outer_if = n
-        n = fa.pm.get(n)
-    ok_e = outer_if is not None and any(isinstance(a, ast.Compare) and isinstance(a.ops[0], ast.IsNot) and A.norm(a.comparators[0]) == "None"
-                                        and "get_cluster(" in fa.xnorm(a.left, lock_tests[0]) for a in A.conj_atoms(lt))
+    lt = test_node(T_LOCK)
+    locked_paths = [(pth, lits) for (pth, lits) in paths if lits.get(T_LOCK) is True and first(pth, recs) is None]
+    ok_e = bool(locked_paths) and all(lits.get("self._calculated_version is None") is False for (pth, lits) in locked_paths)
     ck.ob(R, fa.key(lt, "locked-needs-version"), ok_e, "a locked cluster freezes only an already calculated version" if ok_e else
           "the locked-cluster exit is not guarded by `self._calculated_version is not None`: a never-computed version stays None", fa.where(lt))
     # registration bumps the generation before registering
@@ -1114,8 +1357,12 @@ def check_update_protocol(ck, R):
     ck.ob(R, uf.key(None, "reference-from-current-version"), okf, "the reference is rebuilt with the current version and the partials" if okf else
           "_update_fn_reference does not rebuild FunctionReference(self, cluster, version=self.version(), partials)", uf.where())
     vv = FA(ck, MF + ".version")
-    okv = any(A.call_attr(c) == "_update_dependencies" for c in vv.calls()) and any(A.norm(r.value) == "self._calculated_version" for r in vv.returns()) \
-        and all(vv.cfg.must_pass(vv.nodes_all(vv.calls("_update_dependencies")), i) for r in vv.returns() if A.norm(r.value) == "self._calculated_version" for i in vv.nodes(r))
+    # wherever the answer is read from the calculated version (directly in a return, or into a result variable
+    # that is returned), that read comes after the refresh
+    upd_n = vv.nodes_all(vv.calls("_update_dependencies"))
+    reads = [(e, a) for r in vv.returns() if r.value is not None for i_ in vv.nodes(r) for (e, a) in _alternatives(vv, r.value, i_)
+             if any(isinstance(x, ast.Attribute) and A.norm(x) == "self._calculated_version" for x in ast.walk(e))]
+    okv = bool(upd_n) and bool(reads) and all(vv.cfg.must_pass(upd_n, a) for (e, a) in reads)
     ck.ob(R, vv.key(None, "version-refreshes"), okv, "version() refreshes before answering the calculated version" if okv else
           "version() can answer the calculated version without refreshing dependencies", vv.where())
     ig = FA(ck, MF + ".increment_global_fn_generation")
